@@ -1,9 +1,117 @@
 import JominiModel.Model.Json
+import JominiModel.Spec.Json
+import JominiModel.Proofs.JsonRender
+import JominiModel.Proofs.JsonNarrow
 /-
 C16 — JSON conversion is valid JSON and carries the document's content.
 Only property theorems live here; helper lemmas are in `Proofs/Json*.lean`.
+
+The theorems are about the model `Model/Json.lean` of /repo/src/json/mod.rs (tied to the
+compiled code by the `json` op of the correspondence check).  The float printer (ryu) is
+not modelled: the renderers take it as the parameter `ff`, and the renderer theorems assume
+only that it prints an RFC 8259 number (`isNumber (ff b)`).
 -/
 namespace Jomini.Props.C16
-open Jomini Jomini.Json
+open Jomini Jomini.Json Jomini.JsonSpec Jomini.Scalar
+
+/-! ### rendering -/
+
+/-- Pretty printing changes whitespace only: removing the insignificant whitespace (outside
+strings) of the pretty rendering gives exactly the minified rendering, for every JSON tree. -/
+theorem C16_pretty_ws (ff : Nat → Bytes) (hff : ∀ b, isNumber (ff b) = true) (v : JVal) :
+    stripInsignificantWs (renderPretty ff v) = renderCompact ff v := by
+  have h := strip_prettyAt ff hff v 0 []
+  simpa [stripInsignificantWs, renderPretty, strip] using h
+
+example : ∀ b : Nat, isNumber ((fun _ : Nat => ([48, 46, 53] : Bytes)) b) = true := by intro _; rfl
+example : stripInsignificantWs (renderPretty (fun _ => [48, 46, 53])
+      (.obj [([97, 32], .arr [.int (-12), .float 0, .str [34, 32, 10]]), ([98], .obj [])])) =
+    renderCompact (fun _ => [48, 46, 53])
+      (.obj [([97, 32], .arr [.int (-12), .float 0, .str [34, 32, 10]]), ([98], .obj [])]) := by
+  decide
+
+/-- The minified rendering of every JSON tree is a JSON text in the sense of the RFC 8259
+grammar of `Spec/Json.lean` (strings properly escaped, number grammar, no trailing commas,
+nothing after the value). -/
+theorem C16_render_valid (ff : Nat → Bytes) (hff : ∀ b, isNumber (ff b) = true) (v : JVal) :
+    JsonText (renderCompact ff v) :=
+  jsonText_compact ff hff v
+
+/-- The same for the pretty rendering. -/
+theorem C16_render_valid_pretty (ff : Nat → Bytes) (hff : ∀ b, isNumber (ff b) = true) (v : JVal) :
+    JsonText (renderPretty ff v) :=
+  jsonText_pretty ff hff v
+
+example : JsonText (renderCompact (fun _ => [48, 46, 53]) (.arr [.null, .str [92, 1]])) :=
+  C16_render_valid _ (by intro _; rfl) _
+
+/-! ### type narrowing -/
+
+/-- The scalar → JSON rule as an exact case table.
+* narrowing not applicable (None; Unquoted on a quoted scalar): the decoded string;
+* otherwise `yes`/`no` (exactly these) are booleans;
+* otherwise an integer that `to_i64` (else `to_u64`) accepts is emitted as that exact integer
+  — but only if `to_f64` accepts it too;
+* otherwise what only `to_f64` accepts is a float;
+* whenever `to_f64` refuses (in particular: an integer f64 cannot hold exactly, C11's
+  `PrecisionLoss` guard) the scalar stays the decoded string, whatever `to_i64`/`to_u64` say. -/
+theorem C16_narrowing (o : Opts) (enc : Enc) (quoted : Bool) (s : Bytes) :
+    (narrows o quoted = false → narrowScalar o enc quoted s = .str (decode enc s)) ∧
+    (narrows o quoted = true →
+      (s = [121, 101, 115] → narrowScalar o enc quoted s = .bool true) ∧
+      (s = [110, 111] → narrowScalar o enc quoted s = .bool false) ∧
+      (s ≠ [121, 101, 115] → s ≠ [110, 111] →
+        (∀ e, toF64 s = .error e → narrowScalar o enc quoted s = .str (decode enc s)) ∧
+        (∀ x f, toI64 s = .ok x → toF64 s = .ok f → narrowScalar o enc quoted s = .int x) ∧
+        (∀ e x f, toI64 s = .error e → toU64 s = .ok x → toF64 s = .ok f →
+          narrowScalar o enc quoted s = .int (x : Int)) ∧
+        (∀ e1 e2 f, toI64 s = .error e1 → toU64 s = .error e2 → toF64 s = .ok f →
+          narrowScalar o enc quoted s = (if f64Finite f then .float f else .null)))) := by
+  have hns : narrows o quoted = true → narrowScalar o enc quoted s = serializeScalar enc s := by
+    intro h
+    cases quoted <;> cases hn : o.narrow <;> simp_all [narrows, narrowScalar]
+  refine ⟨?_, ?_⟩
+  · intro h
+    cases quoted <;> cases hn : o.narrow <;> simp_all [narrows, narrowScalar]
+  · intro h
+    rw [hns h]
+    refine ⟨?_, ?_, ?_⟩
+    · intro hs; subst hs; rfl
+    · intro hs; subst hs; rfl
+    · intro h1 h2
+      have hb : ∃ e, Scalar.toBool s = .error e := by
+        unfold Scalar.toBool
+        split
+        · exact absurd rfl h1
+        · exact absurd rfl h2
+        · exact ⟨_, rfl⟩
+      obtain ⟨eb, hb⟩ := hb
+      refine ⟨?_, ?_, ?_, ?_⟩
+      · intro e he; exact serializeScalar_f64_refused enc s eb e hb he
+      · intro x f hi hf; exact serializeScalar_i64 enc s eb x f hb hi hf
+      · intro e x f hi hu hf; exact serializeScalar_u64 enc s eb e x f hb hi hu hf
+      · intro e1 e2 f hi hu hf; exact serializeScalar_f64 enc s eb e1 e2 f hb hi hu hf
+
+/-- "Numbers f64 cannot hold exactly stay strings", closed form on digit strings: a plain
+or negated digit string is emitted as that exact integer iff its magnitude is at most
+2^53 - 1; beyond that it stays the (decoded) string — never a rounded number. -/
+theorem C16_narrowing_integers (o : Opts) (enc : Enc) (quoted : Bool) (c : UInt8) (body : Bytes)
+    (hn : narrows o quoted = true) (hc : isDigit c = true) (hb : allDigits body = true) :
+    narrowScalar o enc quoted (c :: body) =
+      (if decVal (c :: body) ≤ 2 ^ 53 - 1 then .int (decVal (c :: body) : Int)
+       else .str (decode enc (c :: body))) ∧
+    narrowScalar o enc quoted (45 :: c :: body) =
+      (if decVal (c :: body) ≤ 2 ^ 53 - 1 then .int (-(decVal (c :: body) : Int))
+       else .str (decode enc (45 :: c :: body))) := by
+  have hns : ∀ s, narrowScalar o enc quoted s = serializeScalar enc s := by
+    intro s
+    cases quoted <;> cases hn' : o.narrow <;> simp_all [narrows, narrowScalar]
+  rw [hns, hns]
+  exact ⟨serializeScalar_digits enc c body hc hb, serializeScalar_neg_digits enc c body hc hb⟩
+
+example : narrowScalar ⟨false, .preserve, .all⟩ .w1252 true [57, 48, 48, 55, 49, 57, 57, 50, 53, 52, 55, 52, 48, 57, 57, 50] =
+    .str [57, 48, 48, 55, 49, 57, 57, 50, 53, 52, 55, 52, 48, 57, 57, 50] := by rfl   -- "9007199254740992" = 2^53
+example : narrowScalar ⟨false, .preserve, .unquoted⟩ .utf8 false [45, 52, 50] = .int (-42) := by rfl
+example : narrowScalar ⟨false, .preserve, .unquoted⟩ .utf8 true [45, 52, 50] = .str [45, 52, 50] := by rfl
 
 end Jomini.Props.C16
